@@ -64,7 +64,7 @@ KINDS = ['assign', 'emit', 'val', 'str', 'for', 'def', 'call', 'if', 'raise', 'r
          'oneline_ied', 'oneline_silent', 'two_options_ws', 'skip_two_options_ws', 'echo_then_comment',
          'semi_echo_comment', 'comment_then_echo', 'option_on_continuation', 'skip_comment_first',
          'marker_text', 'marker_midline', 'marker_midline_blank', 'skip_behind_blank', 'ied_behind_blank',
-         'oneline_echo', 'oneline_if_echo', 'oneline_with_echo']
+         'oneline_echo', 'oneline_if_echo', 'oneline_with_echo', 'ellipsis_many']
 # compound statements written on one line: the interactive interpreter wants a bare '...' line behind them
 ONELINE = ('oneline_for', 'oneline_raise', 'oneline_ied', 'oneline_silent', 'oneline_echo', 'oneline_if_echo',
            'oneline_with_echo')
@@ -133,6 +133,9 @@ def gen_example(rng, i, defined):
         src = ['boom(%d)  # doctest: +SKIP' % i]
     elif k == 'ellipsis':
         src = ['print("abc%ddef", val(%d))  # doctest: +ELLIPSIS' % (i, i)]
+    elif k == 'ellipsis_many':
+        # several wildcards that stand for nothing at all: the want is longer than the output
+        src = ['print("abc", val(%d))  # doctest: +ELLIPSIS' % i]
     elif k == 'nws':
         src = ['print("a   b", val(%d))  # doctest: +NORMALIZE_WHITESPACE' % i]
     elif k == 'blank':
@@ -305,6 +308,8 @@ def make(seed):
                 want = []
                 if k == 'ellipsis':
                     out = out.replace('c%dd' % i, '...')
+                if k == 'ellipsis_many':
+                    out = out.replace('abc', 'a...b...c')
                 if k == 'option_on_continuation':
                     out = out.replace('spam%d' % i, 'sp...')
                 if k == 'two_options_ws':
